@@ -22,7 +22,7 @@ SPEC_FUNCS = {
     "log_pos", "yielded", "exists_event", "all_events", "isinstance_",
     "truthy", "mem", "count_held", "seq", "select", "glob0", "obj", "strip",
     "split", "join", "cfg", "reaches", "no_event_between", "log_len", "the",
-    "split_ws", "as_", "tail", "has_loop", "ordered", "count_events",
+    "split_ws", "as_", "tail", "has_loop", "ordered", "count_events", "pre",
 }
 
 
@@ -88,6 +88,7 @@ class SpecMixin:
         ctl.env = env
         ctl.mode = mode
         ctl.st = st
+        ctl.iter = getattr(prev_ctl, "iter", None) if prev_ctl else None
         self.ctl = ctl
         parent = st.cur
         if module is not None:
@@ -206,6 +207,8 @@ class SpecMixin:
             return self._in_state(ctl.old, a[0], st)
         if name == "at_entry":
             return self._in_state(ctl.entry, a[0], st)
+        if name == "pre":
+            return self._in_state(getattr(ctl, "iter", None), a[0], st)
         if name == "implies":
             ant = z3.simplify(self.truth(val(a[0]), st))
             if z3.is_false(ant):
@@ -510,11 +513,14 @@ class VerifyMixin:
             src_names.append(fnode.args.kwarg.arg)
         declared = [p[0] for p in plist]
         extra_free = getattr(c, "free_vars", {})
+        for nm, FT in extra_free.items():
+            plist.append((nm, FT, False, None))
+        declared = [p[0] for p in plist]
         for nm in declared:
             if nm not in src_names and nm not in extra_free:
                 raise EngineError(f"contract {key}: parameter {nm!r} not in the source signature {src_names}")
         for nm in src_names:
-            if nm not in declared:
+            if nm not in declared and nm not in extra_free:
                 raise EngineError(f"contract {key}: source parameter {nm!r} has no declaration")
         for nm, T, has_d, d in plist:
             nxt = []
@@ -606,6 +612,8 @@ class VerifyMixin:
     def _mk_call_hook(self, key, callee_key, label, expr, prop, env, old):
         def hook(engine, cenv, st, node):
             e2 = dict(env)
+            for k_, v_ in (cenv or {}).items():
+                e2[f"arg_{k_}"] = v_
             g = engine.spec_eval(expr, st, e2, old=old)
             engine.prove(st, g, f"{key}:at-call:{callee_key.split(':')[-1]}/{label}", prop=engine.prop_of(prop),
                          kind="at-call", site=engine.site(node))
